@@ -400,6 +400,13 @@ def check_1d_call(ctx, st, name, kw, x, y, p, w, perm_kind, fit=None, history=No
     try:
         b, par = quiet(getattr(fit, name), y, poly_order=p, return_coef=True, **kws)
     except Exception as exc:  # C01's business unless it is a plain crash of the coefficient code
+        if tag:
+            try:
+                quiet(getattr(Baseline(x), name), y, poly_order=p, return_coef=True, **kws)
+                ctx.fail(f'reused:{name}:raises', f'{name} raises {type(exc).__name__} ({str(exc)[:80]}) on a reused Baseline object but '
+                         'returns normally on a fresh one', case)
+            except Exception:
+                pass
         ctx.note(f'{name} raised {type(exc).__name__} on one oracle input (not a C08 matter): {str(exc)[:80]}')
         return None
     b = np.asarray(b, dtype=float)
@@ -680,6 +687,13 @@ def oracle_2d(ctx, st, budget):
                 b, par = quiet(getattr(shared if shared is not None else Baseline2D(x, z), name), Y, poly_order=order, weights=W,
                                return_coef=True, max_cross=mc, **kw)
             except Exception as exc:
+                if shared is not None:
+                    try:
+                        quiet(getattr(Baseline2D(x, z), name), Y, poly_order=order, weights=W, return_coef=True, max_cross=mc, **kw)
+                        ctx.fail(f'reused2d:{name}:raises', f'2-D {name} raises {type(exc).__name__} ({str(exc)[:80]}) on a reused Baseline2D '
+                                 'object but returns normally on a fresh one', case)
+                    except Exception:
+                        pass
                 ctx.note(f'2-D {name} raised {type(exc).__name__}: {str(exc)[:80]}')
                 continue
             b = np.asarray(b, dtype=float)
